@@ -34,11 +34,30 @@ OPEN_STATEMENTS = [
     'tensor pair denoting a Hermitian operator, element-wise Hermitian storage not required) ARE theorems, under the decidable '
     'exact-regime hypothesis bkInteractionOpOk (every += and every _qubit_operator_creation deleted only exact zeros), '
     'evaluated by the driver on every generated tensor',
-    'bravyi_kitaev_fast (bksf.py): edge_operator_b / edge_operator_aij are modelled (exact correspondence for every vertex and '
-    'every oriented edge of seeded graphs) and the edge algebra IS a theorem for every graph without loops (bksf_b_commute, '
-    'bksf_a_b_relation, bksf_a_square_antisymmetric, bksf_a_a_relation) and is re-checked exactly on the implementation\'s '
-    'outputs; NOT modelled / not proved: bravyi_kitaev_fast_edge_matrix, _one_body, _two_body, the assembled Hamiltonian '
-    '(its equivalence with the fermionic one on the stabiliser subspace), vacuum_operator, number_operator',
+    'bravyi_kitaev_fast (bksf.py): edge_operator_b / edge_operator_aij, bravyi_kitaev_fast_edge_matrix (+ the numpy.nonzero / '
+    'triu extraction of edge_matrix_indices), _one_body, _two_body, bravyi_kitaev_fast_interaction_op (the selection of tensor '
+    'entries of the main loop included) and number_operator ARE modelled and compared exactly with the library (streams '
+    'bksf-edge-operators, bksf-term-images, bksf-transform). THEOREMS: the edge algebra for every graph without loops '
+    '(bksf_b_commute, bksf_a_b_relation, bksf_a_square_antisymmetric, bksf_a_a_relation; re-checked exactly on the '
+    'implementation\'s outputs); the edge list derived from ANY tensors is a simple graph on 0..N-1 '
+    '(bksf_edge_list_simple_graph: the NoLoops hypothesis always holds for the library\'s array); number_operator is diagonal '
+    'with the parity of the incident edge qubits as occupation (bksf_number_operator_sound, hypothesis numberOk evaluated by the '
+    'driver on every run; also checked on the implementation\'s output on random basis states); _one_body is '
+    '-i/2 (A_ab B_b + B_a A_ab) resp. (1 - B_p)/2 and fails exactly when the edge {p,q} is absent (bksf_one_body_offdiagonal, '
+    'bksf_one_body_diagonal, bksf_one_body_fails_iff; hypothesis oneBodyOk evaluated on every run); _two_body with four '
+    'distinct indices is 1/8 A_pq A_rs (-1 - B_pB_q + B_pB_r + B_pB_s + B_qB_r + B_qB_s - B_rB_s - B_pB_qB_rB_s) and acts as the '
+    'double excitation: -A_pq A_rs on basis states with p, q occupied and r, s empty or vice versa, 0 elsewhere '
+    '(bksf_two_body_four_index_formula, bksf_two_body_four_index_sound; hypothesis twoBody4Ok evaluated on every run; the '
+    'selection rule is also checked exactly on the implementation\'s output). NOT proved (correspondence '
+    '+ numeric spectral Spec oracle on the outputs only: even-parity-sector eigenvalues of the fermionic operator are '
+    'eigenvalues of the image, 1e-7, connected edge graphs with <= 8 edges, N <= 6): the image formulas of _two_body for 3 / '
+    '2 distinct indices; that the entries selected by the main loop add up to the edge-operator image of the whole '
+    'Hamiltonian — FALSE in general on the pinned tree: known findings F05-bksf-missing-edge (ValueError when the entry that is '
+    'transformed is not the entry whose edges were registered) and F05-bksf-complex-coefficients (non-Hermitian output for '
+    'complex Hermitian input); the fermionic identities expressing a^dagger a monomials by Majorana edge operators and the '
+    'isomorphism of the stabiliser subspace with the even-parity Fock space are not formalised (the oracle uses them as '
+    'mathematics: checked numerically on the fermionic algebra for N = 4); vacuum_operator (uses networkx.cycle_basis; no '
+    'Model, not driven)',
     'tree_term_support / tree_car_ann / tree_number_diagonal / tree_equiv_bk ARE theorems (the tree variant has no statement '
     'left to the oracle only)',
     'isospectrality with Jordan-Wigner / preservation of expectation values are not restated: they follow from bk_exact / '
@@ -927,6 +946,395 @@ def stream_bksf_edges(ctx):
     return st
 
 
+# ---- Spec oracle for the superfast encoding: isospectrality with the even-parity sector -----------------------------
+SPECTRUM_TOL = 1e-7
+MAX_SPECTRAL_EDGES = 8
+
+
+def apply_qubit_op(Q, m):
+    """Q|m> for a QubitOperator and a computational basis state, as {basis state: amplitude} (zeros dropped)"""
+    out = {}
+    for t, c in Q.terms.items():
+        x, amp = m, complex(c)
+        for qb, a in t:
+            bit = (x >> qb) & 1
+            if a == 'X':
+                x ^= 1 << qb
+            elif a == 'Y':
+                x ^= 1 << qb
+                amp *= (1j if bit == 0 else -1j)
+            elif a == 'Z':
+                amp *= (-1 if bit else 1)
+        out[x] = out.get(x, 0) + amp
+    return {k: v for k, v in out.items() if v != 0}
+
+
+def graph_connected(N, E):
+    if N == 0:
+        return False
+    adj = {i: set() for i in range(N)}
+    for a, b in E:
+        adj[a].add(b)
+        adj[b].add(a)
+    seen, todo = {0}, [0]
+    while todo:
+        v = todo.pop()
+        for w in adj[v]:
+            if w not in seen:
+                seen.add(w)
+                todo.append(w)
+    return len(seen) == N
+
+
+def even_sector_spectrum(of, fermion_op, N):
+    """eigenvalues of a Hermitian FermionOperator on the even-parity sector of N modes"""
+    from openfermion.linalg import get_sparse_operator
+    M = get_sparse_operator(fermion_op, n_qubits=N).toarray()
+    idx = [x for x in range(2 ** N) if bin(x).count('1') % 2 == 0]
+    return numpy.linalg.eigvalsh(M[numpy.ix_(idx, idx)])
+
+
+def qubit_spectrum(of, Q, n):
+    from openfermion.linalg import get_sparse_operator
+    M = get_sparse_operator(Q, n_qubits=n).toarray()
+    if numpy.allclose(M, M.conj().T, atol=1e-12):
+        return numpy.linalg.eigvalsh(M)
+    return numpy.linalg.eigvals(M)
+
+
+def spectrum_contained(ev, qv):
+    """every even-sector eigenvalue of the fermionic operator is an eigenvalue of the qubit operator.  On a connected
+    graph with all N vertices the stabiliser subspace of the superfast encoding is isomorphic to the even-parity Fock
+    space and the encoded operator commutes with the stabilisers, so this is necessary for a correct encoding"""
+    scale = max(1.0, float(numpy.max(numpy.abs(ev))) if len(ev) else 1.0)
+    return all(float(numpy.min(numpy.abs(qv - e))) < SPECTRUM_TOL * scale for e in ev)
+
+
+def stream_bksf_terms(ctx):
+    """_one_body / _two_body of the Bravyi-Kitaev superfast transform on given graphs"""
+    of = ctx.of
+    bksf = importlib.import_module('openfermion.transforms.opconversions.bksf')
+    st = Stream('bksf-term-images', '_one_body(edge_matrix_indices, p, q) for ALL p, q < N and _two_body(edge_matrix_indices, '
+                'p, q, r, s) for seeded index tuples with p != q, r != s (4, 3 and 2 distinct indices, every equal-index '
+                'pattern) on seeded random simple graphs (N <= 6 vertices, columns (a, b) with a < b in row-major order as the '
+                'library builds them, and shuffled / re-oriented columns): the returned QubitOperator is compared EXACTLY with '
+                'the Model; when an edge operator of a non-edge is needed the library must raise ValueError exactly when the '
+                'Model returns null; the exact-regime flags oneBodyOk / twoBody4Ok of bksf_one_body_* / bksf_two_body_four_index_* are '
+                'evaluated; EXACT Spec check of the double-excitation selection rule (four distinct indices: the image is -A_pq A_rs on '
+                'basis states with p, q occupied and r, s empty or vice versa, 0 on all others) on random basis states; on '
+                'the implementation\'s output: Hermitian; SPEC ORACLE (numeric, tolerance 1e-7 on eigenvalues, graphs that are '
+                'connected with <= 8 edges): the even-parity-sector spectrum of (generic hopping on every edge + on-site terms) and of '
+                '(that background + 0.625 (a†_p a†_q a_r a_s + h.c.); for two distinct indices the self-adjoint term alone) is contained in the spectrum of the sum of the _one_body / '
+                '_two_body images (this oracle found the wrong sign of the B_p B_q B_r B_s term of the four-index formula, repaired '
+                'in the source since); distinct = (graph, index tuple)')
+    rng = rng_for(ctx.seed, 'c05-bksf-terms')
+    reqs, meta = [], []
+
+    def run_impl(case, f):
+        """(status, value): 'ok' / 'missing-edge' / None (violation recorded)"""
+        try:
+            return 'ok', f()
+        except ValueError as e:
+            if 'Invalid index in factor (-1' in str(e):
+                return 'missing-edge', None
+            st.violate('%s raised ValueError: %s' % (case['fn'], str(e)[:200]), case, {})
+        except Exception as e:   # noqa
+            st.violate('%s raised %s: %s' % (case['fn'], type(e).__name__, str(e)[:200]), case, {})
+        return None, None
+
+    for k in range(budget(ctx.tier, 10, 60)):
+        N = rng.randint(2, 6)
+        pairs = [(a, b) for a in range(N) for b in range(a + 1, N)]
+        rng.shuffle(pairs)
+        if k % 2 == 0 and N >= 3:
+            # connected, at most 8 edges (the spectral Spec check applies): a random spanning tree + a few more edges
+            order = list(range(N))
+            rng.shuffle(order)
+            tree = {tuple(sorted((order[i], order[rng.randrange(i)]))) for i in range(1, N)}
+            extra = [e for e in pairs if e not in tree][:rng.randint(0, max(0, min(MAX_SPECTRAL_EDGES, len(pairs)) - (N - 1)))]
+            pairs = list(tree) + extra
+            rng.shuffle(pairs)
+        else:
+            pairs = pairs[:rng.randint(1, len(pairs))]
+        if k % 3 != 2:
+            cols = sorted(pairs)
+        else:
+            cols = [(a, b) if rng.random() < 0.5 else (b, a) for a, b in pairs]
+        emi = numpy.array([[c[0] for c in cols], [c[1] for c in cols]])
+        E = [[int(a), int(b)] for a, b in cols]
+        st.count('graph:edges=%d:%s' % (len(E), 'library-order' if k % 3 != 2 else 'shuffled'))
+        # background for the spectral Spec check: generic hopping on every edge + on-site terms, through _one_body
+        bg, spectral_left = None, {2: budget(ctx.tier, 2, 8), 3: budget(ctx.tier, 4, 12), 4: budget(ctx.tier, 4, 12)}
+        if graph_connected(N, E) and len(E) <= MAX_SPECTRAL_EDGES:
+            try:
+                bf, bq = of.FermionOperator(), of.QubitOperator()
+                for e, (a, b) in enumerate(E):
+                    w = 0.75 - 0.09375 * e
+                    bf += w * (of.FermionOperator(((a, 1), (b, 0))) + of.FermionOperator(((b, 1), (a, 0))))
+                    bq += w * bksf._one_body(emi, a, b)
+                for i in range(N):
+                    w = [0.3125, -0.1875, 0.5, 0.875, -0.4375, 0.6875][i]
+                    bf += w * of.FermionOperator(((i, 1), (i, 0)))
+                    bq += w * bksf._one_body(emi, i, i)
+                st.float_comparisons += 1
+                if spectrum_contained(even_sector_spectrum(of, bf, N), qubit_spectrum(of, bq, len(E))):
+                    bg = (bf, bq)
+                    st.count('spectral check _one_body background: ok')
+                else:
+                    st.violate('_one_body images of hopping + number terms do not reproduce the even-sector spectrum',
+                               {'fn': '_one_body', 'edges': E}, {})
+            except Exception as e:   # noqa
+                st.violate('_one_body raised %s on an edge of the graph' % type(e).__name__, {'fn': '_one_body', 'edges': E}, {})
+        for p in range(N):
+            for q in range(N):
+                case = {'fn': '_one_body', 'edges': E, 'p': p, 'q': q}
+                st.case(case)
+                status, Q = run_impl(case, lambda: bksf._one_body(emi, p, q))
+                if status is None:
+                    continue
+                reqs.append({'op': 'c05.bksf_one_body', 'edges': E, 'p': p, 'q': q})
+                meta.append(('one', case, status, None if Q is None else enc_op('qubit', Q.terms)))
+                if Q is not None and not (of.hermitian_conjugated(Q) == Q):
+                    st.violate('_one_body output is not Hermitian', case, {})
+        tuples = set()
+        for _ in range(budget(ctx.tier, 40, 120)):
+            nd = rng.choice([2, 3, 3, 4, 4]) if N >= 4 else rng.choice([2, 3] if N >= 3 else [2])
+            vs = rng.sample(range(N), nd)
+            if nd == 4:
+                t = tuple(vs)
+            elif nd == 3:
+                a, b, c = vs
+                t = rng.choice([(a, b, a, c), (a, b, c, a), (b, a, a, c), (b, a, c, a)])
+            else:
+                a, b = vs
+                t = rng.choice([(a, b, a, b), (a, b, b, a)])
+            tuples.add(t)
+        for (p, q, r, s2) in sorted(tuples):
+            case = {'fn': '_two_body', 'edges': E, 'p': p, 'q': q, 'r': r, 's': s2}
+            st.case(case)
+            st.count('two_body:distinct=%d' % len({p, q, r, s2}))
+            status, Q = run_impl(case, lambda: bksf._two_body(emi, p, q, r, s2))
+            if status is None:
+                continue
+            reqs.append({'op': 'c05.bksf_two_body', 'edges': E, 'p': p, 'q': q, 'r': r, 's': s2})
+            meta.append(('two', case, status, None if Q is None else enc_op('qubit', Q.terms)))
+            if Q is not None and not (of.hermitian_conjugated(Q) == Q):
+                st.violate('_two_body output is not Hermitian', case, {})
+            if Q is not None and len({p, q, r, s2}) == 4:
+                # Spec (bksf_two_body_four_index_sound), exact, on the implementation's outputs: on a basis state m the
+                # image vanishes unless p, q are occupied and r, s empty (or the other way round); there it is -A_pq A_rs
+                AA = bksf.edge_operator_aij(emi, p, q) * bksf.edge_operator_aij(emi, r, s2)
+                for _ in range(4):
+                    m = rng.getrandbits(len(E))
+                    occ = {i: sum(1 for e, (a, b) in enumerate(E) if (m >> e) & 1 and i in (a, b)) % 2 for i in (p, q, r, s2)}
+                    active = (occ[p], occ[q], occ[r], occ[s2]) in ((1, 1, 0, 0), (0, 0, 1, 1))
+                    want = {k2: -v2 for k2, v2 in apply_qubit_op(AA, m).items()} if active else {}
+                    st.count('double-excitation selection rule: %s state' % ('active' if active else 'inactive'))
+                    if apply_qubit_op(Q, m) != want:
+                        st.violate('_two_body (four distinct indices) is not the double excitation -A_pq A_rs on (1,1,0,0)/(0,0,1,1) '
+                                   'occupations and 0 elsewhere', dict(case, basis_state=m), {})
+            if Q is not None and bg is not None and spectral_left[len({p, q, r, s2})] > 0:
+                # Spec: bg + w (a†_p a†_q a_r a_s + h.c.) and its image have the same even-sector spectrum
+                spectral_left[len({p, q, r, s2})] -= 1
+                st.float_comparisons += 1
+                T = of.FermionOperator(((p, 1), (q, 1), (r, 0), (s2, 0)))
+                # two distinct indices: the term is its own Hermitian conjugate (-/+ n_p n_q) and the library maps the term
+                # alone (the main loop meets both of its tensor entries)
+                Th = T if len({p, q, r, s2}) == 2 else T + of.hermitian_conjugated(T)
+                ev = even_sector_spectrum(of, bg[0] + 0.625 * Th, N)
+                good = spectrum_contained(ev, qubit_spectrum(of, bg[1] + 0.625 * Q, len(E)))
+                st.count('spectral check _two_body distinct=%d: %s' % (len({p, q, r, s2}), 'ok' if good else 'FAILS'))
+                if not good:
+                    st.violate('_two_body is not the image of a†_p a†_q a_r a_s + h.c. (even-sector spectrum of background + term)',
+                               case, {})
+    for (kind, case, status, impl), mo in zip(meta, ctx.driver.run(reqs)):
+        if status == 'missing-edge':
+            st.count('missing edge: library raises, Model null')
+            if mo is not None:
+                st.disagree(case['fn'] + ': the library raises for a missing edge but the Model returns an operator',
+                            case, None, mo)
+            continue
+        if mo is None:
+            st.disagree(case['fn'] + ': the Model reports a missing edge but the library returns an operator', case, impl, mo)
+            continue
+        mop = mo['op']
+        if kind == 'two' and len({case['p'], case['q'], case['r'], case['s']}) == 4:
+            st.count('twoBody4Ok: %s' % mo['ok4'])
+            if mo['ok4'] is not True:
+                st.count('theorem-hypothesis-not-met')
+        if kind == 'one':
+            st.count('oneBodyOk: %s' % mo['ok'])
+            if mo['ok'] is not True:
+                st.count('theorem-hypothesis-not-met')
+        if canon_nz(impl) != canon_nz(mop):
+            st.disagree(case['fn'] + ': terms differ', case, impl, mop)
+    return st
+
+
+def stream_bksf(ctx):
+    """the assembled Bravyi-Kitaev superfast transform"""
+    of = ctx.of
+    bksf = importlib.import_module('openfermion.transforms.opconversions.bksf')
+    st = Stream('bksf-transform', 'bravyi_kitaev_fast(InteractionOperator) on seeded random Hermitian InteractionOperators '
+                '(real and complex dyadic, sparse and dense, N <= 5 quick / 6 thorough, element-wise Hermitian and '
+                'non-canonical storage): the edge_matrix_indices (order of the columns included), the assembled QubitOperator '
+                'and number_operator (all modes / one mode) are compared EXACTLY with the Model (a ValueError "Invalid index in factor '
+                '(-1, ..)" of the library must coincide with the Model reporting a missing edge: listed finding '
+                'F05-bksf-missing-edge); on the implementation\'s output: the operator is Hermitian (fails for complex '
+                'coefficients: listed finding F05-bksf-complex-coefficients; any failure on a real tensor is a new violation), '
+                'number_operator is diagonal with the parity-of-incident-edge-qubits eigenvalues on random basis states; SPEC '
+                'ORACLE (numeric, 1e-7 on eigenvalues) for real element-wise Hermitian tensors whose edge graph is connected with '
+                '<= 8 edges: every eigenvalue of H on the even-parity sector is an eigenvalue of bravyi_kitaev_fast(H) (a hard '
+                'oracle: every failure is a violation); distinct = distinct tensors')
+    b = Batch(ctx, st)
+    rng = rng_for(ctx.seed, 'c05-bksf-full')
+    reqs, meta = [], []
+    for k in range(budget(ctx.tier, 64, 300)):
+        N = rng.choice([2, 3, 3, 4, 4, 4, 5] + ([6] if ctx.tier == 'thorough' and k % 6 == 0 else []))
+        cplx = rng.random() < 0.5
+        density = rng.choice([0.05, 0.1, 0.3]) if N >= 4 else rng.choice([0.3, 0.6, 1.0])
+        iop = rand_hermitian_iop(rng, of, N, cplx, density)
+        if k % 4 == 1 and N >= 2:
+            noncanonical(rng, iop.two_body_tensor, cplx)
+        elif not cplx and N >= 2 and rng.random() < 0.75:
+            # hopping on a random spanning tree: the edge graph is connected, so the spectral Spec check applies
+            order = list(range(N))
+            rng.shuffle(order)
+            for i in range(1, N):
+                a, b2 = order[i], order[rng.randrange(i)]
+                if iop.one_body_tensor[a, b2] == 0:
+                    iop.one_body_tensor[a, b2] = iop.one_body_tensor[b2, a] = rng.choice([0.5, -0.75, 1.25, 0.375])
+        one, two = flat(iop.one_body_tensor), flat(iop.two_body_tensor)
+        const = to_gq(iop.constant)
+        case = {'fn': 'bravyi_kitaev_fast', 'interaction_operator': {'N': N, 'constant': const, 'one': one, 'two': two}}
+        st.case(case)
+        st.count('bksf:N=%d:%s' % (N, 'complex' if cplx else 'real'))
+        ok, em = call(st, 'bravyi_kitaev_fast_edge_matrix', case, lambda: bksf.bravyi_kitaev_fast_edge_matrix(iop))
+        E = []
+        if not ok:
+            em = None
+        if ok:
+            emi = numpy.array(numpy.nonzero(numpy.triu(em) - numpy.diag(numpy.diag(em))))
+            E = [[int(emi[0, e]), int(emi[1, e])] for e in range(emi.shape[1])]
+            reqs.append({'op': 'c05.bksf_edges', 'N': N, 'one': one, 'two': two})
+            meta.append(('edges', case, E))
+            st.count('edges=%d' % min(len(E), 10))
+        missing = False
+        try:
+            ok, Q = True, bksf.bravyi_kitaev_fast(iop)
+        except ValueError as e:
+            if 'Invalid index in factor (-1' in str(e):
+                # position_ij = -1: an edge operator A_ij is requested for an edge that the edge matrix does not
+                # contain; the Model reports the same condition as `null` (finding F05-bksf-missing-edge)
+                ok, missing = False, True
+                reqs.append({'op': 'c05.bksf', 'N': N, 'constant': const, 'one': one, 'two': two})
+                meta.append(('missing-edge', case, str(e)[:120]))
+            else:
+                ok = False
+                st.violate('bravyi_kitaev_fast raised ValueError: %s' % str(e)[:200], case, {})
+        except Exception as e:   # noqa
+            ok = False
+            st.violate('bravyi_kitaev_fast raised %s: %s' % (type(e).__name__, str(e)[:200]), case, {})
+        if ok:
+            jQ = enc_op('qubit', Q.terms)
+            reqs.append({'op': 'c05.bksf', 'N': N, 'constant': const, 'one': one, 'two': two})
+            meta.append(('op', case, jQ))
+            if (not cplx) and k % 4 != 1 and em is not None and graph_connected(N, E) and 0 < len(E) <= MAX_SPECTRAL_EDGES:
+                # Spec: the even-sector spectrum of the fermionic Hamiltonian is contained in the spectrum of its image
+                st.float_comparisons += 1
+                ev = even_sector_spectrum(of, of.get_fermion_operator(iop), N)
+                good = spectrum_contained(ev, qubit_spectrum(of, Q, len(E)))
+                st.count('spectral check (real, element-wise Hermitian, connected graph): %s' % ('ok' if good else 'FAILS'))
+                if not good:
+                    st.violate('bravyi_kitaev_fast(H) does not contain the even-sector spectrum of H', case, {})
+            if not (of.hermitian_conjugated(Q) == Q):
+                has_im = bool(numpy.any(numpy.imag(iop.one_body_tensor) != 0) or numpy.any(numpy.imag(iop.two_body_tensor) != 0))
+                st.violate('bravyi_kitaev_fast of a Hermitian InteractionOperator is not Hermitian',
+                           dict(case, has_imaginary_coefficients=has_im), {})
+        mode = rng.choice([None] + list(range(N)))
+        ok, Nop = call(st, 'number_operator', case, lambda: bksf.number_operator(iop, mode))
+        if ok:
+            ncase = dict(case, fn='number_operator', mode=mode)
+            reqs.append({'op': 'c05.bksf_number', 'N': N, 'one': one, 'two': two, 'mode': mode})
+            meta.append(('op', ncase, enc_op('qubit', Nop.terms)))
+            reqs.append({'op': 'c05.bksf_number_ok', 'N': N, 'one': one, 'two': two, 'mode': mode})
+            meta.append(('regime', ncase, None))
+            # Spec (bksf_number_operator_sound), on the implementation's output and its own edge list: diagonal, mode i
+            # occupied iff an odd number of the qubits on the edges at vertex i is set
+            if em is not None:
+                nE = len(E)
+                for _ in range(6):
+                    m = rng.getrandbits(nE) if nE else 0
+                    occ = [sum(1 for e, (a, b2) in enumerate(E) if (m >> e) & 1 and i in (a, b2)) % 2 for i in range(N)]
+                    want = sum(occ) if mode is None else occ[mode]
+                    got, diag = 0, True
+                    for t, c in Nop.terms.items():
+                        if any(a != 'Z' for _, a in t):
+                            diag = False
+                        got += c * (-1) ** sum((m >> q) & 1 for q, _ in t)
+                    st.count('number-operator eigenvalue checks')
+                    if not diag or got != want:
+                        st.violate('number_operator is not the parity-of-incident-edges occupation', dict(ncase, basis_state=m),
+                                   {'eigenvalue': str(got), 'expected': want, 'diagonal': diag})
+    for (kind, case, impl), mo in zip(meta, ctx.driver.run(reqs)):
+        if kind == 'edges':
+            if impl != mo:
+                st.disagree('edge_matrix_indices differ', case, impl, mo)
+        elif kind == 'regime':
+            st.count('number_operator exact regime (numberOk): %s' % mo)
+            if mo is not True:
+                st.count('theorem-hypothesis-not-met')
+        elif kind == 'missing-edge':
+            if mo is None:
+                st.count('missing-edge (library raises, Model reports the missing edge)')
+                st.violate('bravyi_kitaev_fast raises ValueError on a Hermitian InteractionOperator: an edge operator is '
+                           'requested for an edge absent from the edge matrix', dict(case, model_confirms_missing_edge=True),
+                           {'exception': impl})
+            else:
+                st.disagree('bravyi_kitaev_fast raised "%s" but the Model returns an operator' % impl, case, None, mo)
+        elif mo is None or canon_nz(impl) != canon_nz(mo):
+            st.disagree(case['fn'] + ': terms differ', case, impl, mo)
+    return st
+
+
+def classify(v):
+    case = v.get('input', {}) or {}
+    if v.get('stream') == 'bksf-transform' and case.get('model_confirms_missing_edge') \
+            and v.get('what', '').startswith('bravyi_kitaev_fast raises ValueError on a Hermitian InteractionOperator'):
+        return 'F05-bksf-missing-edge'
+    if v.get('stream') == 'bksf-transform' and case.get('has_imaginary_coefficients') is True \
+            and v.get('what', '') == 'bravyi_kitaev_fast of a Hermitian InteractionOperator is not Hermitian':
+        return 'F05-bksf-complex-coefficients'
+    return None
+
+
+def probe_known(ctx, k):
+    """replay the listed witness on the real code: True while it still fails"""
+    of = ctx.of
+    if k['id'] == 'F05-bksf-missing-edge':
+        bksf = importlib.import_module('openfermion.transforms.opconversions.bksf')
+        two = numpy.zeros((4,) * 4)
+        two[0, 1, 2, 3] = two[3, 2, 1, 0] = 1.0
+        try:
+            bksf.bravyi_kitaev_fast(of.InteractionOperator(0.0, numpy.zeros((4, 4)), two))
+        except ValueError:
+            return True
+        except Exception:
+            return True
+        return False
+    if k['id'] == 'F05-bksf-complex-coefficients':
+        bksf = importlib.import_module('openfermion.transforms.opconversions.bksf')
+        one = numpy.zeros((3, 3), complex)
+        one[0, 1], one[1, 0] = 1j, -1j
+        one[1, 2] = one[2, 1] = one[0, 2] = one[2, 0] = 1
+        try:
+            Q = bksf.bravyi_kitaev_fast(of.InteractionOperator(0.0, one, numpy.zeros((3,) * 4)))
+            return not (of.hermitian_conjugated(Q) == Q)
+        except Exception:
+            return True
+    return False
+
+
 def run(ctx):
     return [stream_sets(ctx), stream_ladder(ctx), stream_srl(ctx), stream_random(ctx), stream_interaction(ctx),
-            stream_bksf_edges(ctx), stream_hardening(ctx)]
+            stream_bksf_edges(ctx), stream_bksf_terms(ctx), stream_bksf(ctx), stream_hardening(ctx)]
